@@ -221,6 +221,19 @@ func execOp(h *WHub, op Op) error {
 		if err := h.StoreBatch("core.Dataset", []*kit.Ent{me}, "store"); err != nil {
 			return fmt.Errorf("storing the meta-entity of %s: %w", op.Name, err)
 		}
+	case "badrename":
+		// renaming onto the name of an existing dataset is refused and changes nothing
+		var err error
+		if op.Via == "http" {
+			body, _ := json.Marshal(map[string]string{"ID": op.ID})
+			if code, _ := h.Do("PATCH", "/datasets/"+op.Name, string(body), nil); code == 200 {
+				return fmt.Errorf("REJECTED-RENAME-ACCEPTED PATCH /datasets/%s {ID:%s} answered 200 although %s exists", op.Name, op.ID, op.ID)
+			}
+			return nil
+		}
+		if _, err = h.Dsm.UpdateDataset(op.Name, &server.UpdateDatasetConfig{ID: op.ID}); err == nil {
+			return fmt.Errorf("REJECTED-RENAME-ACCEPTED UpdateDataset(%s -> %s) succeeded although %s exists", op.Name, op.ID, op.ID)
+		}
 	case "badbatch":
 		// valid entities followed by one that cannot be stored (a null inside a reference array): the
 		// batch is rejected as a whole
@@ -547,6 +560,17 @@ func (g *gm) applyPubNS(op Op) {
 	}
 }
 
+// applyBadRename: a refused rename changes nothing (the model is not touched).
+func (g *gm) applyBadRename(op Op) {
+	g.record(op)
+	if g.h != nil {
+		if err := execOp(g.h, op); err != nil {
+			g.fail("%v", err)
+		}
+	}
+	g.cls["rejected-rename"] = true
+}
+
 // applyBadBatch: a rejected batch changes nothing (the model is not touched).
 func (g *gm) applyBadBatch(op Op) {
 	g.record(op)
@@ -585,6 +609,8 @@ func (g *gm) applyOp(op Op) {
 		g.applyRestart(op)
 	case "pubns":
 		g.applyPubNS(op)
+	case "badrename":
+		g.applyBadRename(op)
 	case "badbatch":
 		g.applyBadBatch(op)
 	case "token":
